@@ -246,7 +246,7 @@ def run_impl(task):
 
 
 # ----------------------------------------------------------------------------- tolerances
-def w_step_tol(algo, alpha, B2, g2, lre, wmax):
+def w_step_tol(algo, alpha, B2, g2, lre, wmax, same_factors=False):
     """(bound, tight) absolute tolerances for one increment of w, or None when alpha <= 0 / ill-conditioned.
     A perturbation dx = 1e-12*B2 of the sketch moves phi(S, alpha) g by at most |phi'|_max * dx * |g| (phi a matrix function
     with bounded divided differences); Ada-FD goes through a matrix square root (Hoelder 1/2)."""
@@ -258,6 +258,10 @@ def w_step_tol(algo, alpha, B2, g2, lre, wmax):
     elif algo in ("FD_SON", "RFD_SON"):
         f, fp = 1.0 / alpha, alpha ** -2.0
         bound = lre * g2 * (fp * 1e-12 * B2 + 1e-12 * f)
+    elif same_factors:
+        # Ada-FD judged from the implementation's own (P, e): a linear solve with condition (alpha + e_max)/alpha
+        f = 1.0 / alpha
+        bound = lre * g2 * 1e-12 * f * (1.0 + math.sqrt(B2) / alpha)
     else:
         f = 1.0 / alpha
         bound = lre * g2 * (alpha ** -2.0 * math.sqrt(1e-13 * B2) + 1e-12 * f)
@@ -303,9 +307,12 @@ def oracle_simple(ctx, case, states, stats):
     return bad
 
 
-def phi_apply(algo, S, alpha, g):
-    """phi(S, alpha) g with numpy's eigh of the n x n sketch (safe inversion: non-positive arguments give 0)."""
+def phi_apply(algo, S, alpha, g, P=None, e=None):
+    """phi(S, alpha) g with numpy's eigh of the n x n sketch (safe inversion: non-positive arguments give 0).
+    Ada-FD: S^(1/2) = P^T diag(e) P for orthonormal rows of P (checked separately), then one linear solve."""
     import numpy as np
+    if algo == "ADA_FD" and P is not None:
+        return np.linalg.solve(alpha * np.eye(S.shape[0]) + (P.T * e) @ P, g)
     x, V = np.linalg.eigh((S + S.T) / 2)
     x = np.maximum(x, 0.0)
     if algo == "S_ADA":
@@ -391,11 +398,11 @@ def oracle_sketched(ctx, case, states, stats):
         dw = (st["w"] - states[t - 1]["w"]).ravel()
         lre = lr_eff(algo, lr)
         wmax = float(np.max(np.abs(st["w"]))) if np.all(np.isfinite(st["w"])) else 0.0
-        tl = w_step_tol(algo, alpha, scale, float(np.linalg.norm(g)), lre, wmax)
+        tl = w_step_tol(algo, alpha, scale, float(np.linalg.norm(g)), lre, wmax, same_factors=True)
         if tl is None or not np.all(np.isfinite(states[t - 1]["w"])):
             info["skipped_w"] += 1
         else:
-            dw_exp = -lre * phi_apply(algo, S, alpha, g)
+            dw_exp = -lre * phi_apply(algo, S, alpha, g, P, e)
             if not close(dw, dw_exp, tl[0]):
                 bad.append(f"step {t}: increment of w {dw.tolist()} != -lr phi(S, alpha) g = {dw_exp.tolist()} (tol {tl[0]:.2e})")
             stats["oracle_w_tight" if close(dw, dw_exp, tl[1]) else "oracle_w_within_conditioning_bound"] += 1
